@@ -351,9 +351,36 @@ func (w *ecsWorld) checkCache(id uint64, when string) {
 
 func (w *ecsWorld) genEvent() (metadb.MessageEventAppend, string) {
 	t := w.r.Tape
-	if len(w.sent) > 0 && t.Chance(1, 6) {
-		w.r.Fault("event_retry")
-		return w.sent[t.Intn(len(w.sent))], "retry"
+	if len(w.sent) > 0 && t.Chance(1, 5) {
+		ev := w.sent[t.Intn(len(w.sent))]
+		if !t.Chance(1, 3) || ev.EventType == metadb.EventTypeStreamFinish {
+			w.r.Fault("event_retry")
+			return ev, "retry"
+		}
+		// a retry of a known event id that names another lane (or none: the default lane):
+		// half of the time the id of a durable terminal event
+		if t.Chance(1, 2) {
+			var term []metadb.MessageEventAppend
+			for _, old := range w.sent {
+				if isMessageEventTerminalEvent(old.EventType) && old.EventType != metadb.EventTypeStreamFinish {
+					term = append(term, old)
+				}
+			}
+			if len(term) > 0 {
+				ev = term[t.Intn(len(term))]
+			}
+		}
+		if ev.EventType != metadb.EventTypeStreamFinish {
+			var others []string
+			for _, k := range ecsLaneKeys {
+				if k != ev.EventKey {
+					others = append(others, k)
+				}
+			}
+			ev.EventKey = others[t.Intn(len(others))]
+		}
+		w.r.Fault("event_retry_other_lane")
+		return ev, "retry-rekeyed"
 	}
 	w.evCount++
 	w.clock++
@@ -361,7 +388,7 @@ func (w *ecsWorld) genEvent() (metadb.MessageEventAppend, string) {
 		metadb.EventTypeStreamFinish, metadb.EventTypeStreamClose, metadb.EventTypeStreamError, metadb.EventTypeStreamCancel}
 	typ := types[t.Weighted([]int{12, 2, 2, 4, 2, 1, 1})]
 	ev := metadb.MessageEventAppend{ChannelID: w.channel, ChannelType: 2, ClientMsgNo: w.msgs[t.Intn(len(w.msgs))],
-		EventID: fmt.Sprintf("e%d", w.evCount), EventKey: []string{"main", "aux"}[t.Weighted([]int{3, 1})], EventType: typ,
+		EventID: fmt.Sprintf("e%d", w.evCount), EventKey: ecsLaneKeys[t.Weighted([]int{3, 1, 1, 1})], EventType: typ,
 		Visibility: metadb.VisibilityPublic, OccurredAt: w.clock, UpdatedAt: w.clock}
 	switch typ {
 	case metadb.EventTypeStreamDelta:
@@ -383,6 +410,32 @@ func (w *ecsWorld) genEvent() (metadb.MessageEventAppend, string) {
 	}
 	w.sent = append(w.sent, ev)
 	return ev, "new"
+}
+
+// lanes a client may name; the empty key means the default lane
+var ecsLaneKeys = []string{"main", "aux", "tool", ""}
+
+func ecsLaneOf(ev metadb.MessageEventAppend) string {
+	if ev.EventType == metadb.EventTypeStreamFinish {
+		return metadb.EventKeyFinish
+	}
+	if ev.EventKey == "" {
+		return metadb.EventKeyDefault
+	}
+	return ev.EventKey
+}
+
+func ecsStateMap(states []metadb.MessageEventState) map[string]metadb.MessageEventState {
+	out := map[string]metadb.MessageEventState{}
+	for _, st := range states {
+		out[st.EventKey] = st
+	}
+	return out
+}
+
+func ecsSameState(a, b metadb.MessageEventState) bool {
+	return a.Status == b.Status && a.LastMsgEventSeq == b.LastMsgEventSeq && a.LastEventID == b.LastEventID &&
+		string(a.SnapshotPayload) == string(b.SnapshotPayload) && a.EndReason == b.EndReason && a.Error == b.Error
 }
 
 func payloadHasSnapshot(p []byte) bool {
@@ -414,6 +467,23 @@ func (w *ecsWorld) send(id uint64, ev metadb.MessageEventAppend, kind string) {
 	var openBefore []metadb.MessageEventState
 	if ev.EventType == metadb.EventTypeStreamFinish {
 		openBefore = n.messageEventStreamCache.openStatesForFinish(ev)
+	}
+	lane := ecsLaneOf(ev) // the lane this request names after normalisation
+	evN := ev
+	evN.EventKey = lane
+	cacheBefore := ecsStateMap(n.messageEventStreamCache.states(metadb.MessageEventMessageKey{ChannelID: w.channel, ChannelType: 2, ClientMsgNo: msg}))
+	// what the reference says this leader has acknowledged into its cache and not yet made durable
+	type refOpenLane struct {
+		key, text string
+		hasPay    bool
+	}
+	var refOpen []refOpenLane
+	if s := w.sessionFor(id, msg, false); s != nil && ev.EventType == metadb.EventTypeStreamFinish && id == w.leader {
+		for _, k := range simkit.SortedKeys(s.lanes) {
+			if l := s.lanes[k]; k != metadb.EventKeyFinish && !ecsTerminal(l.status) {
+				refOpen = append(refOpen, refOpenLane{key: k, text: l.text, hasPay: l.hasPay})
+			}
+		}
 	}
 	res, err := n.appendMessageEventLocal(context.Background(), ev)
 	r.Logf("send node%d %s %s id=%s msg=%s lane=%q pay=%s -> seq=%d status=%s err=%v", id, kind, ev.EventType, ev.EventID, msg, ev.EventKey, ev.Payload, res.MsgEventSeq, res.Status, err)
@@ -460,26 +530,26 @@ func (w *ecsWorld) send(id uint64, ev metadb.MessageEventAppend, kind string) {
 			r.Fail("cache-append-error", fmt.Sprintf("node%d refused %s with %v although it is leader, not in restore and has room", id, ev.EventType, err), nil)
 			return
 		}
-		w.clientAck(ev)
+		w.clientAck(evN)
 		if !s.seen[ev.EventID] {
 			s.seen[ev.EventID] = true
-			lane := s.lanes[ev.EventKey]
-			if lane == nil {
-				lane = &ecsLane{status: metadb.EventStatusOpen}
-				s.lanes[ev.EventKey] = lane
+			rl := s.lanes[lane]
+			if rl == nil {
+				rl = &ecsLane{status: metadb.EventStatusOpen}
+				s.lanes[lane] = rl
 			}
-			if !ecsTerminal(lane.status) {
-				lane.touched = true
+			if !ecsTerminal(rl.status) {
+				rl.touched = true
 				switch ev.EventType {
 				case metadb.EventTypeStreamDelta:
 					var d struct {
 						Delta string `json:"delta"`
 					}
 					_ = json.Unmarshal(ev.Payload, &d)
-					lane.text += d.Delta
-					lane.hasPay = true
+					rl.text += d.Delta
+					rl.hasPay = true
 				case metadb.EventTypeStreamSnapshot:
-					lane.text, lane.hasPay = ecsText(ev.Payload)
+					rl.text, rl.hasPay = ecsText(ev.Payload)
 				}
 			}
 		}
@@ -541,6 +611,26 @@ func (w *ecsWorld) send(id uint64, ev metadb.MessageEventAppend, kind string) {
 				return
 			}
 		}
+		// the same from the client's side of this leader: text it acknowledged into its cache
+		// and never made durable must not be missing from a projection it completes
+		for _, ro := range refOpen {
+			d, ok := after[ro.key]
+			if !ok || !ecsTerminal(d.Status) {
+				r.FailSig("finish-dropped-cached-lane", "acknowledged-missing", fmt.Sprintf("finish %s completed but lane %q of %s, which this leader acknowledged (text %q) and never finalised, is not final in the durable projection: %+v", ev.EventID, ro.key, msg, ro.text, d), nil)
+				return
+			}
+			if b, was := before[ro.key]; was && ecsTerminal(b.Status) {
+				continue
+			}
+			want, has := ro.text, ro.hasPay
+			if hasSnap {
+				want, has = ecsText(payloadSnapshot(ev.Payload))
+			}
+			if got, _ := ecsText(d.SnapshotPayload); has && got != want {
+				r.FailSig("finish-dropped-cached-lane", "acknowledged-text", fmt.Sprintf("finish %s completed; this leader acknowledged %q on lane %q of %s, the durable projection holds %q", ev.EventID, want, ro.key, msg, got), nil)
+				return
+			}
+		}
 		if len(openBefore) > 0 {
 			r.Probe("finish_flushed_open_lanes")
 		}
@@ -555,24 +645,60 @@ func (w *ecsWorld) send(id uint64, ev metadb.MessageEventAppend, kind string) {
 		if err != nil {
 			return
 		}
-		d, ok := after[ev.EventKey]
+		// the lane the durable reducer attributes this event id to: the named lane, or, for
+		// a replayed id, the lane of its first application
+		durLane := res.EventKey
+		d, ok := after[durLane]
 		if !ok || !ecsTerminal(d.Status) {
-			r.Fail("terminal-not-durable", fmt.Sprintf("%s %s answered success but durable lane %q is %+v", ev.EventType, ev.EventID, ev.EventKey, d), nil)
+			r.Fail("terminal-not-durable", fmt.Sprintf("%s %s answered success for lane %q but that durable lane is %+v", ev.EventType, ev.EventID, durLane, d), nil)
 			return
 		}
-		if s := w.sessionFor(id, msg, false); s != nil {
-			if lane := s.lanes[ev.EventKey]; lane != nil && !ecsTerminal(lane.status) {
-				if b, was := before[ev.EventKey]; !(was && ecsTerminal(b.Status)) && lane.hasPay && !payloadHasSnapshot(ev.Payload) {
+		s := w.sessionFor(id, msg, false)
+		if durLane != lane {
+			// a replayed event id that names another lane: it is not applied again, so neither
+			// the durable projection nor the cached state of the lane it names may change
+			r.Probe("replay_names_other_lane")
+			for _, k := range simkit.SortedKeys(after) {
+				if b, was := before[k]; !was || !ecsSameState(b, after[k]) {
+					r.FailSig("replay-applied-twice", "durable", fmt.Sprintf("%s %s is a replay (first applied on lane %q) naming lane %q; durable lane %q changed from %+v to %+v", ev.EventType, ev.EventID, durLane, lane, k, b, after[k]), nil)
+					return
+				}
+			}
+			cacheAfter := ecsStateMap(n.messageEventStreamCache.states(metadb.MessageEventMessageKey{ChannelID: w.channel, ChannelType: 2, ClientMsgNo: msg}))
+			cb, hadB := cacheBefore[lane]
+			ca, hadA := cacheAfter[lane]
+			if hadB != hadA || (hadB && (cb.Status != ca.Status || string(cb.SnapshotPayload) != string(ca.SnapshotPayload))) {
+				r.FailSig("replay-applied-twice", "cache", fmt.Sprintf("%s %s is a replay (first applied on lane %q) naming lane %q; node%d's cached lane %q went from present=%v status=%q text=%q to present=%v status=%q text=%q",
+					ev.EventType, ev.EventID, durLane, lane, id, lane, hadB, cb.Status, cb.SnapshotPayload, hadA, ca.Status, ca.SnapshotPayload), nil)
+				return
+			}
+			if hadB && !ecsTerminal(cb.Status) && len(cb.SnapshotPayload) > 0 {
+				r.Probe("replay_names_open_cached_lane")
+			}
+			if s != nil {
+				// the lane of the first application is final in the durable projection
+				if rl := s.lanes[durLane]; rl != nil {
+					rl.status = d.Status
+				} else {
+					s.lanes[durLane] = &ecsLane{status: d.Status}
+				}
+				s.seen[ev.EventID] = true
+			}
+			return
+		}
+		if s != nil {
+			if rl := s.lanes[lane]; rl != nil && !ecsTerminal(rl.status) {
+				if b, was := before[lane]; !(was && ecsTerminal(b.Status)) && rl.hasPay && !payloadHasSnapshot(ev.Payload) {
 					got, _ := ecsText(d.SnapshotPayload)
-					if got != lane.text {
-						r.FailSig("finish-dropped-cached-lane", "terminal-merge", fmt.Sprintf("%s %s finalised lane %q of %s; the cache held %q, the durable projection holds %q", ev.EventType, ev.EventID, ev.EventKey, msg, lane.text, got), nil)
+					if got != rl.text {
+						r.FailSig("finish-dropped-cached-lane", "terminal-merge", fmt.Sprintf("%s %s finalised lane %q of %s; the cache held %q, the durable projection holds %q", ev.EventType, ev.EventID, lane, msg, rl.text, got), nil)
 						return
 					}
 					r.Probe("terminal_merged_cached_snapshot")
 				}
-				lane.status = d.Status
-			} else if lane == nil {
-				s.lanes[ev.EventKey] = &ecsLane{status: d.Status}
+				rl.status = d.Status
+			} else if rl == nil {
+				s.lanes[lane] = &ecsLane{status: d.Status}
 			}
 			s.seen[ev.EventID] = true
 		}
